@@ -451,7 +451,13 @@ where
     let (remaining_input, typetag) = bit_take(7usize)(remaining_input)?;
     let (remaining_input, wasted_flag): (_, u8) = bit_take(1usize)(remaining_input)?;
 
-    assert!(wasted_flag == 0); // not supported
+    if wasted_flag != 0 {
+        // wasted bits are not supported.
+        return Err(nom::Err::Error(error_position!(
+            remaining_input,
+            nom::error::ErrorKind::TagBits
+        )));
+    }
 
     Ok((remaining_input, (typetag, wasted_flag != 0)))
 }
@@ -556,7 +562,13 @@ where
         }
         let order = (typetag as usize) - 0x20 + 1;
         let (remaining_input, warm_up) = raw_samples(bits_per_sample, order)(remaining_input)?;
-        let warm_up = heapless::Vec::try_from(warm_up.as_slice()).expect("Unexpected error");
+        // fails when `order` exceeds the maximum LPC order supported.
+        let warm_up = heapless::Vec::try_from(warm_up.as_slice()).map_err(|()| {
+            nom::Err::Error(error_position!(
+                remaining_input,
+                nom::error::ErrorKind::Verify
+            ))
+        })?;
 
         let (remaining_input, parameters) = quantized_parameters(order)(remaining_input)?;
         let (remaining_input, residual) = residual(block_size, order)(remaining_input)?;
@@ -592,8 +604,14 @@ where
         let (remaining_input, coefs) = raw_samples(precision, order)(remaining_input)?;
 
         let coefs: Vec<i16> = coefs.into_iter().map(|x| x as i16).collect();
-        let ret = component::QuantizedParameters::new(&coefs, order, shift, precision)
-            .expect("Unexpected error");
+        // fails e.g. for a negative shift or the invalid precision code.
+        let ret =
+            component::QuantizedParameters::new(&coefs, order, shift, precision).map_err(|_e| {
+                nom::Err::Error(error_position!(
+                    remaining_input,
+                    nom::error::ErrorKind::Verify
+                ))
+            })?;
         Ok((remaining_input, ret))
     }
 }
